@@ -521,6 +521,16 @@ def main(argv):
             i += 1
         i += 1
     seed = int(os.environ.get("VERIF_SEED", "1") or 1)
+    if replay:
+        # a replay file records the tier, the seed and the rejected case; the check is run again with that tier and seed
+        # (every seeded driver and sample then produces the same runs) and the recorded case is shown first
+        try:
+            rd = json.load(open(replay))
+            tier, seed = rd.get("tier", tier), int(rd.get("seed", seed))
+            print("replaying %s: tier=%s seed=%s\n  recorded: %s" % (replay, tier, seed, str(rd.get("what"))[:600]), flush=True)
+        except Exception as e:
+            print("cannot read replay file %s: %s" % (replay, e))
+            return 2
     modp = os.path.join(VERIF, "checks", pid.lower() + ".py")
     if not os.path.exists(modp):
         print("no check for", pid)
